@@ -171,12 +171,25 @@ def add_branch_component(comp, mg, net, table_name, include_comp, respect_status
         indices[:, F_JUNCTION] = tab[from_col].values
         indices[:, T_JUNCTION] = tab[to_col].values
 
-        if valve_et_filter is not None:
-            mask = (net.valve.et.values == valve_et_filter) & ~net.valve.opened.values.astype(bool)
-            if mask.any():
-                open_pipes = net.valve.element.values[mask]
-                open_pipes_mask = np.isin(indices[:, INDEX], open_pipes)
-                in_service &= ~open_pipes_mask
+        if table_name == "valve" and "et" in tab.columns:
+            # a valve attached to a pipe (et == "pi") is no junction-junction edge of its own:
+            # its `element` is a pipe index. It acts on the edge of its pipe (see below).
+            pipe_valves = tab["et"].values == "pi"
+            if pipe_valves.any():
+                tab = tab[~pipe_valves]
+                if not len(tab):
+                    return
+                indices, parameter, in_service = indices[~pipe_valves], parameter[~pipe_valves], \
+                    in_service[~pipe_valves]
+
+        if valve_et_filter is not None and "valve" in net and len(net.valve):
+            # a pipe is cut off if, at one of its ends, all valves attached there are closed
+            at_pipe = net.valve.et.values == valve_et_filter
+            if at_pipe.any():
+                pv = net.valve[at_pipe]
+                all_closed = ~pv.groupby(["junction", "element"])["opened"].any()
+                closed_pipes = all_closed.index.get_level_values("element")[all_closed.values]
+                in_service &= ~np.isin(indices[:, INDEX], closed_pipes)
 
         if weight_getter is not None:
             parameter[:, WEIGHT] = weight_getter[0](net, tab, *weight_getter[1])
